@@ -51,7 +51,7 @@ GROUPS = {
 }
 QUICK_GROUPS = list(GROUPS)
 XDOUBLE_N = [1, 2, 3]
-MUL_SMALL_N = list(range(0, 17)) + [31, 32, 33, 255, 2 ** 32 + 1, 2 ** 63, 2 ** 64 - 1]
+MUL_SMALL_N = list(range(0, 17)) + [31, 32, 33, 255, 2 ** 32 + 1, 2 ** 40 + 1, 0x0123456789ABCDEF, 0xFEDCBA9876543210, 2 ** 63, 2 ** 64 - 1]
 
 
 class Machinery(Exception):
@@ -1639,7 +1639,7 @@ def native_requests(g, hint, rng, count=6):
                 E = m.c_add(E, E)
             reqs.append(((g.name, func, n, F1), E))
         elif func == "set_mul_small":
-            for nn in ([n] if n else [2, 3, 5, 7, 16]):
+            for nn in ([n] if n else [0, 1, 2, 3, 5, 7, 16]):
                 E = m.c_neutral()
                 for bit in bin(nn)[2:]:
                     E = m.c_add(E, E)
@@ -1657,6 +1657,8 @@ def native_requests(g, hint, rng, count=6):
             E5 = m.c_add(m.c_add(m.c_add(P, P), m.c_add(P, P)), P)
             for v in ("vn", "rn", "nv", "nr", "assign"):
                 reqs.append(((g.name, "op_mul_" + v, 5, F1), E5))
+                reqs.append(((g.name, "op_mul_" + v, 0, F1), m.c_neutral()))
+                reqs.append(((g.name, "op_mul_" + v, 1, F1), P))
     return reqs
 
 
